@@ -318,6 +318,10 @@ func (repo *Repository) ProcessHeader(ctx context.Context, header *wire.BlockHea
 	repo.Lock()
 	defer repo.Unlock()
 
+	if !bitsAreValid(header.Bits) {
+		return errors.Wrapf(ErrInvalidTarget, "malformed bits 0x%08x", header.Bits)
+	}
+
 	if !repo.disableDifficulty && !header.WorkIsValid() {
 		return ErrNotEnoughWork
 	}
@@ -499,6 +503,22 @@ func (repo *Repository) ProcessHeader(ctx context.Context, header *wire.BlockHea
 	}
 
 	return nil
+}
+
+// bitsAreValid returns false for compact target encodings that don't represent a positive target.
+// These come straight from the remote node and the conversion functions can't handle all of them.
+func bitsAreValid(bits uint32) bool {
+	size := bits >> 24
+	if size < 3 {
+		return false // less than the three bytes of precision a target always has
+	}
+	if bits&0x00800000 != 0 {
+		return false // negative
+	}
+	if bits&0x007fffff == 0 {
+		return false // zero
+	}
+	return true
 }
 
 func (repo *Repository) sendBranchUpdate(branch, previousLongest *Branch) error {
